@@ -239,6 +239,7 @@ def run(tier, r):
         cfgn += 1
         n, m = oc.gen_nm(r, 50, 1)
         lo, hi = oc.gen_box(r, n)
+        m = oc.common.cap_density(lo, hi, m)
         ev = oc.mk_ev(lo, hi, n, m)
         ctx = {"mode": "random", "N": n, "m": m, "lower": lo, "upper": hi}
         stats["dims"][str(n)] = stats["dims"].get(str(n), 0) + 1
